@@ -28,10 +28,11 @@ def rule_dispatch(ctx):
 
 
 def rule_components(ctx):
-    files = ['gravity.c', 'boundary.c', 'tree.c', 'integrator_eos.c', 'integrator_whfast.c']
+    files = ['gravity.c', 'boundary.c', 'tree.c', 'integrator_eos.c', 'integrator_whfast.c', 'rebound.c']
     only = {'integrator_eos.c': {'reb_integrator_eos_interaction_shell0', 'reb_integrator_eos_interaction_shell1'},
             'integrator_whfast.c': {'reb_whfast_interaction_step', 'reb_whfast_calculate_jerk', 'reb_whfast_jump_step', 'reb_whfast_com_step'},
             'boundary.c': {'reb_boundary_get_ghostbox'},
+            'rebound.c': {'reb_simulation_configure_box', 'reb_simulation_init'},   # box edges: the period of the ghost images
             'tree.c': {'reb_tree_update_gravity_data_in_cell', 'reb_calculate_acceleration_for_particle_from_cell', 'reb_tree_add_particle_to_cell'}}
     tus = cfront.load_tus(files)
     stats = {'groups': 0, 'samples': []}
